@@ -418,7 +418,7 @@ pub fn run(ctx: &mut Ctx) {
     }
     for id in ALL_CODECS {
         let m = id.model();
-        let lens = gen::long_lens(ctx.thorough(), ctx.seed);
+        let lens = gen::long_lens_bits(id.bits(), ctx.thorough(), ctx.seed);
         ctx.forall_lens(&format!("pairs_long/{}", id.name()), &lens, |n| (gen::seq_spec_n(id, n), rel(m), gen::any_repr(m)).prop_map(move |(a, rel, b_repr)| Case { codec: id, a, rel, b_repr }), dispatch);
         // long operands held the same way (same offset within a word), differing only near one end
         ctx.forall_lens(
